@@ -69,7 +69,7 @@ def run(defs, tag, N, m, maxlen, timeout=1200, per_def_timeout=600):
 
     def one(d):
         al = alphabet(d)
-        args = [binary, "sweep", d["name"], str(maxlen)] + [str(ord(ch)) for ch in al]
+        args = [binary, "sweep", d["name"], str(d.get("sweep_maxlen", maxlen))] + [str(ord(ch)) for ch in al]
         try:
             p = C.run_group(args, timeout=per_def_timeout)
         except Exception as e:  # time-out
